@@ -1,4 +1,4 @@
-"""C16 -- files survive rope byte-for-byte apart from the intended edit (clauses R16.1-R16.11)."""
+"""C16 -- files survive rope byte-for-byte apart from the intended edit (clauses R16.1-R16.12)."""
 from __future__ import annotations
 
 import ast
@@ -19,6 +19,7 @@ EXPLANATION = (
     "not decided."
     " R16.9: _find_coding accepts both PEP 263 delimiters and every character of the interpreter's codec names.  R16.10: the declaring line is found like tokenize.detect_encoding does (cookie pattern inclusion, two lines, stop at a first line that is neither blank nor comment)."
 )
+EXPLANATION += ' R16.12: the keyword search for the encoding declaration retries after a hit that no delimiter follows.'
 ASSUMPTIONS = ["str.encode() without argument means utf-8 (language definition)",
                "codec aliases are compared through codecs.lookup of the running interpreter"]
 
@@ -57,6 +58,7 @@ def check(ctx, res) -> None:
     coding_name_alphabet_rule(ctx, res, "R16.9")
     cookie_line_rule(ctx, res, "R16.10")
     encoding_from_text_rule(ctx, res, "R16.11")
+    declaration_keyword_rule(ctx, res, "R16.12")
 
 
 def _check_main(ctx, res) -> None:
@@ -426,10 +428,16 @@ def coding_name_alphabet_rule(ctx, res, rule: str) -> None:
     punct = {ch for name in list(encodings.aliases.aliases) + list(encodings.aliases.aliases.values()) for ch in name if not ch.isalnum()} | {"-"}
     sets = []
     for x in walk_local(f.node):
-        if isinstance(x, ast.Compare) and len(x.ops) == 1 and isinstance(x.ops[0], (ast.In, ast.NotIn)) \
-                and isinstance(x.comparators[0], ast.Constant) and isinstance(x.comparators[0].value, (bytes, str)):
-            v = x.comparators[0].value
+        if not (isinstance(x, ast.Compare) and len(x.ops) == 1 and isinstance(x.ops[0], (ast.In, ast.NotIn))):
+            continue
+        r = x.comparators[0]
+        if isinstance(r, ast.Constant) and isinstance(r.value, (bytes, str)):
+            v = r.value
             sets.append((x, {chr(b) for b in v} if isinstance(v, bytes) else set(v)))
+        elif isinstance(r, (ast.Tuple, ast.List, ast.Set)) and r.elts and all(
+                isinstance(e, ast.Constant) and isinstance(e.value, (bytes, str)) and len(e.value) == 1 for e in r.elts):
+            # the same set spelled as a collection of one-character constants (`x[i : i + 1] in (b"=", b":")`)
+            sets.append((x, {e.value.decode("latin-1") if isinstance(e.value, bytes) else e.value for e in r.elts}))
     if len(sets) < 2:
         raise AnalysisError("anchor=fscommands._find_coding: the delimiter test and the name alphabet are no longer constant membership tests")
     delim = [(x, v) for x, v in sets if v & {"=", ":"}]
@@ -596,3 +604,34 @@ def encoding_from_text_rule(ctx, res, rule: str) -> None:
                 f"the writer passes `encoding={ast.unparse(given[0])}` to the encoder, bypassing the choice from the text: when an edit changes or removes the coding "
                 "line, the new text is encoded with the OLD declaration -- the bytes on disk do not match the cookie they carry", function=wf.qualname)
     res.floor(rule, "encoder calls in write_file", n, 1)
+
+
+def declaration_keyword_rule(ctx, res, rule: str) -> None:
+    """R16.12: the coding-line pattern (`#.*?coding[:=]`) finds the first `coding` that is FOLLOWED by a delimiter; the words
+    "encoding", "decoding", "hard-coding" may stand before it on the line.  The function that then cuts the codec name out
+    of the line must find the same occurrence: a keyword search (`index` / `find` of the literal) whose hit is rejected
+    because no delimiter follows is repeated from there (it stands in a loop) -- it does not end the scan with "no
+    declaration", which makes the writer fall back to UTF-8 for a file that declares, and is read as, something else."""
+    idx = ctx.idx
+    f = idx.need_func("rope.base.fscommands._find_coding")
+    lits = {t.id for x in walk_local(f.node) if isinstance(x, ast.Assign) and isinstance(x.value, ast.Constant) and x.value.value in (b"coding", "coding")
+            for t in x.targets if isinstance(t, ast.Name)}
+
+    def is_kw(e) -> bool:
+        if (isinstance(e, ast.Constant) and e.value in (b"coding", "coding")) or (isinstance(e, ast.Name) and e.id in lits):
+            return True
+        k = idx.const_node(f.unit.modname, e, f.cls) if isinstance(e, (ast.Name, ast.Attribute)) else None  # a module / class constant
+        return k is not None and k.value in (b"coding", "coding")
+    searches = [c for c in calls_in(f.node) if isinstance(c.func, ast.Attribute) and c.func.attr in ("index", "find") and c.args and is_kw(c.args[0])]
+    if not searches:
+        raise AnalysisError("anchor=fscommands._find_coding: no search for the keyword `coding`")
+    in_loop = set()
+    for w in walk_local(f.node):
+        if isinstance(w, (ast.While, ast.For)):
+            in_loop |= {id(c) for c in ast.walk(w) if isinstance(c, ast.Call)}
+    ok = any(id(c) in in_loop for c in searches)
+    res.add(rule, "_find_coding|keyword-search-retries", ok, f"{f.unit.rel}:{searches[0].lineno}",
+            "a hit of the keyword that no delimiter follows is not the end of the scan: the search is repeated" if ok else
+            f"`{ast.unparse(searches[0])}` looks at ONE occurrence of the word: in `# encoding and decoding helpers -*- coding: latin-1 -*-` the first `coding` is followed "
+            "by a space, the function answers 'no declaration', and a file the interpreter (and rope's own line pattern) reads as latin-1 is written back as "
+            "UTF-8 -- every non-ASCII character changes its bytes while the file still declares latin-1", function=f.qualname)
